@@ -24,6 +24,10 @@ BodySeq == SetToSeq(Bodies)
 Listings == { <<Ins(AddrT[1], b[1], b[2])>> : b \in Bodies }
        \cup { <<Ins(AddrT[1], b[1], b[2]), Ins(AddrT[2], "ret", <<>>)>> : b \in Bodies }
        \cup { <<Ins(AddrT[1], "call", <<"*%rax">>), Ins(AddrT[2], b[1], b[2]), Ins(AddrT[3], "jmp", <<"401000">>)>> : b \in Bodies }
+       \* a non-branch whose whole operand text equals a direct branch's (self-modifying code in a stripped binary:
+       \* `jmp 0x401013' ... `decb 0x401013'), before and after the branch
+       \cup { <<Ins(AddrT[1], "incb", <<t>>), Ins(AddrT[2], m, <<t>>), Ins(AddrT[3], "decb", <<t>>), Ins(AddrT[4], "ret", <<>>)>> :
+               t \in Targets, m \in {"call", "jmp"} }
 
 Q_Ranges == { <<"0x401000", "0x401010">>, <<"401000", "401010">>, <<"0x401000", "0x401000">>, <<"0x000401000", "0x40100A">>,
               <<"0x0", "0xffffffffffffffff">>, <<"0x1000", "0x180FFFFFF">>,
